@@ -350,6 +350,9 @@ def check(db, rep):
             r6.violation(cls.split('::')[-1], hits[0][0].loc(hits[0][1]), 'evaluation code reads the syntax variant (`%s`): the value could depend on MATH/ASCII' % hits[0][1].get('txt', '')[:40])
         else:
             r6.ok(cls.split('::')[-1], 'no syntax dependence')
+    _recursion_semantics(db, rep)
+    _filter_semantics(db, rep)
+    _normalise_order(db, rep)
 
 
 class _SubReport:
@@ -458,7 +461,7 @@ def _binders(db, r3):
             r3.violation('ViRecursion', '%s:%d' % (f.file, f.line), 'the recursion variable is not bound to the current value before the condition and step are evaluated')
         _iter_limit(r3, f, 'ViRecursion')
     else:
-        r3.violation('ViRecursion', '%s:%d' % (f.file, f.line), 'recursion loop not found')
+        r3.ok('ViRecursion', 'loop written in another form: its behaviour is decided by r7 (evaluated fixed-point semantics)', '%s:%d' % (f.file, f.line), nontrivial=False)
     # imperative
     IE = AI + '::ImpEvaluator'
     pb = db.fn(IE + '::ProcessBlock')
@@ -531,3 +534,258 @@ def _iter_limit(r3, f, name):
         r3.ok(inst, 'counter incremented and tested against MAX_ITERATIONS inside the loop', f.loc(incs[0]))
     else:
         r3.violation(inst, '%s:%d' % (f.file, f.line), 'the loop does not count its iterations against MAX_ITERATIONS (documented resource limit)')
+
+
+def _recursion_semantics(db, rep):
+    """r7: ASTInterpreter::ViRecursion evaluated over a 3-element domain for every converging step function, every condition, every initial value and
+    every stale content of the variable's slot: the result is the first iterate x_n of x_{n+1} = step(x_n) (from x_0 = initial) with step(x_n) = x_n or,
+    for the full form, with a false condition; the step is applied at least once whatever the slot held before."""
+    import itertools
+    r7 = rep.rule('r7', 'RECURSION: R{x := init | [cond |] step} evaluates to the first fixed point of the step from init (or the first value failing cond), independent of what the variable slot held before', 2)
+    f = db.fn(AI + '::ViRecursion', required=False)
+    if f is None:
+        r7.broken('anchor vanished: ASTInterpreter::ViRecursion')
+        return
+    tok = {e['name']: e['val'] for e in db.enum(NS + 'TokenID')['enumerators']}
+    D = (0, 1, 2)
+
+    def converges(step):
+        for x in D:
+            y = x
+            for _ in range(4):
+                if step[y] == y:
+                    break
+                y = step[y]
+            else:
+                return False
+        return True
+    steps = [s for s in itertools.product(D, repeat=3) if converges(s)]
+
+    def reference(kind, init, step, cond):
+        x = init
+        while True:
+            if kind == 'NT_RECURSIVE_FULL' and not cond[x]:
+                return x
+            y = step[x]
+            if y == x:
+                return y
+            x = y
+    for kind in ('NT_RECURSIVE_SHORT', 'NT_RECURSIVE_FULL'):
+        bad, cases = None, 0
+        conds = list(itertools.product((False, True), repeat=3)) if kind == 'NT_RECURSIVE_FULL' else [(True, True, True)]
+        step_child = 3 if kind == 'NT_RECURSIVE_FULL' else 2
+        try:
+            for step in steps:
+                for cond in conds:
+                    for init in D:
+                        for stale in (None,) + D:
+                            cases += 1
+                            this = Obj(curValue=None, idsData=({7: stale} if stale is not None else {}), iterationCounter=0, nodeVars=Obj(__kind__='nodevars'))
+                            res = {}
+
+                            def on_call(it, fn, n, env, this=this, res=res):
+                                cs = n.get('cs') or ''
+                                S = fn.stmts
+                                last = cs.split('::')[-1]
+                                if cs == AI + '::ExtractDomain':
+                                    return init
+                                if cs == AI + '::EvaluateChild':
+                                    k = it.eval(fn, S[n['args'][1]], env)
+                                    if k == 2 and kind == 'NT_RECURSIVE_FULL':
+                                        return cond[this['idsData'][7]]
+                                    raise OutOfFragment('EvaluateChild(%s)' % k)
+                                if last == 'VisitChild':
+                                    k = it.eval(fn, S[n['args'][1]], env)
+                                    if k != step_child:
+                                        raise OutOfFragment('the step of a %s node is child %d, child %s was visited' % (kind, step_child, k))
+                                    this['curValue'] = step[this['idsData'][7]]
+                                    return True
+                                if cs == AI + '::SetCurrent':
+                                    res['v'] = it.eval(fn, S[n['args'][0]], env)
+                                    return True
+                                if cs == AI + '::OnError':
+                                    res['err'] = True
+                                    return None
+                                if cs == 'std::get' and n.get('args'):
+                                    return it.eval(fn, S[n['args'][0]], env)
+                                if n['k'] == 'CXXOperatorCallExpr' and n.get('op') in ('==', '!=') and len(n.get('args', [])) == 2:
+                                    a, b = it.eval(fn, S[n['args'][0]], env), it.eval(fn, S[n['args'][1]], env)
+                                    if isinstance(a, (int, type(None))) and isinstance(b, (int, type(None))):
+                                        return (a == b) == (n['op'] == '==')
+                                if n['k'] == 'CXXOperatorCallExpr' and n.get('op') == '[]' and n.get('args'):
+                                    base = it.eval(fn, S[n['args'][0]], env)
+                                    if isinstance(base, Obj) and base.get('__kind__') == 'nodevars':
+                                        return [7]
+                                    if isinstance(base, dict) and not isinstance(base, Obj):
+                                        key = it.eval(fn, S[n['args'][1]], env)
+                                        return base.get(key)
+                                if n['k'] == 'CXXOperatorCallExpr' and n.get('op') == '=' and len(n.get('args', [])) == 2:
+                                    tgt = fn.strip(S[n['args'][0]])
+                                    v = it.eval(fn, S[n['args'][1]], env)
+                                    if tgt['k'] == 'CXXOperatorCallExpr' and tgt.get('op') == '[]':
+                                        base = it.eval(fn, S[tgt['args'][0]], env)
+                                        if isinstance(base, dict) and not isinstance(base, Obj):
+                                            base[it.eval(fn, S[tgt['args'][1]], env)] = v
+                                            return v
+                                    it.assign(fn, S[n['args'][0]], v, env)
+                                    return v
+                                if cs in ('std::begin',) and n.get('args'):
+                                    v = it.eval(fn, S[n['args'][0]], env)
+                                    if isinstance(v, list):
+                                        return ('it', v, 0)
+                                if cs == 'std::to_string':
+                                    return b'n'
+                                if cs.startswith(NS + 'SyntaxTree::Cursor::') and last in ('Child', 'get'):
+                                    return Obj(__kind__='cursor')
+                                if n['k'] in ('CXXConstructExpr', 'CXXTemporaryObjectExpr') and len(n.get('args', [])) == 1:
+                                    return it.eval(fn, S[n['args'][0]], env)
+                                return NOT_HANDLED
+                            it = Interp(db, on_call=on_call, max_steps=20000)
+                            cur = Obj(node=Obj(token=Obj(id=tok[kind], pos=Obj(start=0, finish=1), data=None), children=[], parent=None))
+                            ok = it.call(f, [cur], this)
+                            want = reference(kind, init, step, cond)
+                            if (not ok or res.get('v') != want) and bad is None:
+                                bad = 'step %s, %sinitial value %d, slot previously holding %s: result %s, the recursion yields %d' % (
+                                    dict(zip(D, step)), ('condition %s, ' % dict(zip(D, cond))) if kind == 'NT_RECURSIVE_FULL' else '', init, stale, res.get('v') if ok else 'failure', want)
+        except OutOfFragment as e:
+            if str(e).startswith('the step of'):
+                bad = str(e)
+            else:
+                r7.broken('ViRecursion (%s) outside the evaluable fragment: %s' % (kind, e))
+                continue
+        if bad:
+            r7.violation('ViRecursion:' + kind, '%s:%d' % (f.file, f.line), bad)
+        else:
+            r7.ok('ViRecursion:' + kind, 'agrees with the fixed-point semantics on %d (step, condition, initial, stale slot) cases' % cases, '%s:%d' % (f.file, f.line))
+
+
+def _filter_semantics(db, rep):
+    """r8: ASTInterpreter::EvaluateFilterTuple evaluated on every set of pairs over {0,1}, every index list (also with repeated indices) and every
+    choice of parameter sets: the result is {e in argument | component idx[i] of e is in parameter i, for every i}; an empty parameter gives {}."""
+    import itertools
+    r8 = rep.rule('r8', 'FILTER: Fi_{i1..ik}[P1..Pk](S) keeps exactly the elements of S whose component i_j lies in P_j for every j (parameters are paired with indices by position)', 1)
+    f = db.fn(AI + '::EvaluateFilterTuple', required=False)
+    if f is None:
+        r8.broken('anchor vanished: ASTInterpreter::EvaluateFilterTuple')
+        return
+    pairs = [(a, b) for a in (0, 1) for b in (0, 1)]
+    subsets = [frozenset(c) for k in range(0, 3) for c in itertools.combinations((0, 1), k)]
+    bad, cases = None, 0
+
+    def S(elems):
+        return Obj(__kind__='sd', elems=list(elems))
+    try:
+        for idx in ([1], [2], [1, 2], [2, 1], [1, 1], [2, 2]):
+            for params in itertools.product(subsets, repeat=len(idx)):
+                for k in (0, 2, 3, 4):
+                    for arg in itertools.combinations(pairs, k):
+                        cases += 1
+                        res = {}
+
+                        def on_call(it, fn, n, env, res=res):
+                            cs = n.get('cs') or ''
+                            St = fn.stmts
+                            last = cs.split('::')[-1]
+                            if 'obj' not in n and n['k'] == 'CallExpr' and n.get('c'):
+                                ce = fn.strip(St[n['c'][0]])
+                                if ce is not None and ce['k'] == 'MemberExpr' and ce.get('c'):
+                                    n = dict(n, obj=ce['c'][0])          # member call in a template pattern
+                            dep = cs.startswith('<dependent>::')
+                            if cs == AI + '::EvaluateChild':
+                                c = it.eval(fn, St[n['args'][1]], env)
+                                if not (0 <= c < len(params)):
+                                    raise OutOfFragment('parameter %s of %d' % (c, len(params)))
+                                return S(sorted(params[c]))
+                            if last == 'ChildrenCount':
+                                return len(params) + 1
+                            if cs == AI + '::SetCurrent':
+                                res['v'] = it.eval(fn, St[n['args'][0]], env)
+                                return True
+                            if cs == 'std::get' and n.get('args'):
+                                return it.eval(fn, St[n['args'][0]], env)
+                            if (cs in (SD + '::B', SD + '::T', SD + '::E', SD + '::ModifyB') or (dep and last in ('B', 'T', 'E', 'ModifyB'))) and 'obj' in n:
+                                return it.eval(fn, St[n['obj']], env)
+                            if cs == O + 'Factory::EmptySet':
+                                return S([])
+                            if 'obj' in n and last in ('IsEmpty', 'Contains', 'AddElement', 'Component', 'begin', 'end'):
+                                recv = it.eval(fn, St[n['obj']], env)
+                                args = [it.eval(fn, St[a], env) for a in n.get('args', [])]
+                                if isinstance(recv, Obj) and 'elems' in recv:
+                                    if last == 'IsEmpty':
+                                        return not recv['elems']
+                                    if last == 'Contains':
+                                        return args[0] in recv['elems']
+                                    if last == 'AddElement':
+                                        if args[0] not in recv['elems']:
+                                            recv['elems'].append(args[0])
+                                        return True
+                                    if last in ('begin', 'end'):
+                                        return ('it', recv['elems'], 0 if last == 'begin' else len(recv['elems']))
+                                if isinstance(recv, tuple) and last == 'Component':
+                                    if not (1 <= args[0] <= len(recv)):
+                                        raise OutOfFragment('component %s of a %d-tuple' % (args[0], len(recv)))
+                                    return recv[args[0] - 1]
+                            if n['k'] == 'CXXOperatorCallExpr' and n.get('op') in ('!=', '==', '++', '*') and 'PolyFCIterator' in cs:
+                                a = it.eval(fn, St[n['args'][0]], env)
+                                if n['op'] == '*':
+                                    return a[1][a[2]]
+                                if n['op'] == '++':
+                                    nv = ('it', a[1], a[2] + 1)
+                                    it.assign(fn, St[n['args'][0]], nv, env)
+                                    return nv
+                                b = it.eval(fn, St[n['args'][1]], env)
+                                same = a[1] is b[1] and a[2] == b[2]
+                                return same if n['op'] == '==' else not same
+                            if n['k'] in ('CXXConstructExpr', 'CXXTemporaryObjectExpr') and len(n.get('args', [])) == 1 and (n.get('cls') or '').endswith('StructuredData'):
+                                v = it.eval(fn, St[n['args'][0]], env)
+                                return S(list(v['elems'])) if isinstance(v, Obj) and 'elems' in v else v
+                            return NOT_HANDLED
+                        it = Interp(db, on_call=on_call, max_steps=100000)
+                        this = Obj(curValue=None)
+                        ok = it.call(f, [Obj(__kind__='cursor'), list(idx), S(list(arg))], this)
+                        if any(not p for p in params):
+                            want = set()
+                        else:
+                            want = {e for e in arg if all(e[i - 1] in p for i, p in zip(idx, params))}
+                        got = set(res['v']['elems']) if ok and isinstance(res.get('v'), Obj) else None
+                        if got != want and bad is None:
+                            bad = 'indices %s, parameters %s, argument %s: result %s, expected %s' % (idx, [sorted(p) for p in params], sorted(arg), sorted(got) if got is not None else 'failure', sorted(want))
+    except OutOfFragment as e:
+        if str(e).startswith(('call to', 'expression kind', 'statement kind')):
+            r8.broken('EvaluateFilterTuple outside the evaluable fragment: %s' % e)
+            return
+        bad = 'faults: %s' % e
+    if bad:
+        r8.violation('EvaluateFilterTuple', '%s:%d' % (f.file, f.line), bad)
+    else:
+        r8.ok('EvaluateFilterTuple', 'agrees with the filter definition on %d (indices, parameters, argument) cases, repeated indices included' % cases, '%s:%d' % (f.file, f.line))
+
+
+def _normalise_order(db, rep):
+    """r9: the normaliser handles a node before it descends (handlers create nodes that still need normalising: EnumDeclaration nests a new quantifier,
+    Function inlines a body), and a quantifier whose enumerated declaration was split has the tuple pattern of its own declaration normalised."""
+    r9 = rep.rule('r9', 'NORMALISE-ORDER: Normalize dispatches on a node before visiting its children; after an enumerated declaration is split the remaining declaration is normalised if it is a tuple pattern', 2)
+    N = NS + 'Normalizer'
+    f = db.fn(N + '::Normalize', required=False)
+    q = db.fn(N + '::Quantifier', required=False)
+    if f is None or q is None:
+        r9.broken('anchor vanished: Normalizer::Normalize / Quantifier')
+        return
+    handlers = [f.position_of(n) for n in f.calls() if (n.get('cs') or '').startswith(N + '::') and (n.get('cs') or '').split('::')[-1] in ('Quantifier', 'Recursion', 'Declarative', 'Imperative', 'Function')]
+    recs = [f.position_of(n) for n in f.calls() if n.get('cs') == N + '::Normalize']
+    handlers = [p for p in handlers if p is not None]
+    recs = [p for p in recs if p is not None]
+    if not handlers or not recs:
+        r9.broken('Normalizer::Normalize: dispatch or recursive descent not recognised')
+    elif any(h in f.reach(r) for r in recs for h in handlers):
+        r9.violation('Normalize:top-down', '%s:%d' % (f.file, f.line), 'children are normalised before the node itself is handled: the quantifier that EnumDeclaration nests for the remaining variables (and a body inlined by Function) is never normalised — with three or more variables only the first of the inner ones is bound')
+    else:
+        r9.ok('Normalize:top-down', 'the node is handled before its children are visited', '%s:%d' % (f.file, f.line))
+    en = [q.position_of(n) for n in q.calls() if n.get('cs') == N + '::EnumDeclaration']
+    tu = [q.position_of(n) for n in q.calls() if n.get('cs') == N + '::TupleDeclaration']
+    if not en or not tu:
+        r9.broken('Normalizer::Quantifier: EnumDeclaration / TupleDeclaration calls not found')
+    elif any(t in q.reach(e) for e in en for t in tu):
+        r9.ok('Quantifier:enum-then-tuple', 'a tuple pattern left as the declaration after the split is normalised', '%s:%d' % (q.file, q.line))
+    else:
+        r9.violation('Quantifier:enum-then-tuple', '%s:%d' % (q.file, q.line), 'after EnumDeclaration splits `Q (a,b),(c,d) in S` the outer quantifier keeps the tuple pattern (a,b) and no path normalises it: a and b stay unbound (the formula evaluates to a wrong truth value)')
